@@ -246,7 +246,8 @@ func runDecShape(c *core.Ctx) []core.Obligation {
 		obs = append(obs, core.Ob("R-DECSHAPE", "limitmsg:anchor", "-", "", core.Violated, fmt.Sprintf("unresolved anchor: %d limit tests with a reported limit found, 4 expected", nlim)))
 	}
 
-	obs = append(obs, byteReaderPassthrough(c))
+	obs = append(obs, byteReaderPassthrough(c), capDecodeValidated(c))
+	obs = append(obs, boundAfterErrorCheck(c)...)
 	obs = append(obs, polylineFirstVertex(c)...)
 
 	// (zerovertices) D31: Vertex(i) is vertices[i % len(vertices)], so a Loop with no vertices panics (integer divide
